@@ -167,7 +167,9 @@ func TestC09(t *testing.T) {
 	rapid.Check(t, func(t *rapid.T) {
 		c := c09Case{Graph: gen.Graph(t, o)}
 		cl := gen.Classify(c.Graph)
+		vstat.InFlight("C09", "skipschemas", c)
 		f, rewritten := oracleC09(c)
+		vstat.ClearInFlight("C09")
 		r.Eval()
 		for _, l := range cl.Labels() {
 			r.Label(l)
